@@ -16,6 +16,7 @@
 #include <sys/ioctl.h>
 #include <net/if.h>
 #include <netinet/in.h>
+static std::string g_prop = "C14";   // property whose check runs the harness (--prop)
 
 struct Cfg { int turns, reactions; };
 static Cfg cfg;
@@ -56,7 +57,7 @@ struct World
 
   World() : ch(0), server(0), nraw(0), ncl(0), clockMs(50000), turn(0), reactions(0), polls(0), failed(false), tracing(false), interruptRequested(false), stopping(false), pollsSinceInterrupt(0), partialFd(-1)
   { memset(&li, 0, sizeof(li)); memset(es, 0, sizeof(es)); memset(raw, 0, sizeof(raw)); memset(cl, 0, sizeof(cl)); }
-  void fail(const std::string& k, const std::string& m) { if(!failed) { failed = true; failKey = "C14:" + k; failMsg = m; } }
+  void fail(const std::string& k, const std::string& m) { if(!failed) { failed = true; failKey = g_prop + ":" + k; failMsg = m; } }
   void note(const std::string& s, bool inner) { if(inner) trace += " {" + s + "}"; else trace += (trace.empty() ? "" : "; ") + s; if(tracing) printf("  %s%s\n", inner ? "  " : "", s.c_str()); }
 
   std::vector<Act> menu()
@@ -343,6 +344,7 @@ struct Runner
 int main(int argc, char** argv)
 {
   vf::std_init(argc, argv);
+  g_prop = vf::arg(argc, argv, "--prop", "C14");
   cfg.turns = (int)vf::argll(argc, argv, "--turns", 3);
   cfg.reactions = (int)vf::argll(argc, argv, "--reactions", 1);
   if(!newNamespace())
